@@ -24,9 +24,12 @@ def prior_positive(spec, x):
     raise ValueError(kind)
 
 
-def make_session(rng):
-    """model, data, prior table, call sequence"""
+def make_session(rng, force_constraint=False):
+    """model, data, prior table, call sequence; force_constraint: a stratum that always has an inferred initial value and
+    a population constraint on the FIRST state"""
     which = rng.choice(["sir", "sir", "lv", "sircount"])
+    if force_constraint:
+        which = "sir"
     if which == "sircount":
         # count-scale SIR with a likelihood-type distance and wide priors: for much of the prior the epidemic dies out and
         # the loss is undefined (NaN); such trials have no distance below any tolerance
@@ -44,7 +47,7 @@ def make_session(rng):
         t = np.linspace(0, 30, 13)
         obs = rng.choice([["I"], ["I", "R"], ["R", "I"], ["S", "I", "R"]])
         states = ["S", "I", "R"]
-        state_target = ("I", 0.02) if rng.random() < 0.3 else None
+        state_target = ("I", 0.02) if (rng.random() < 0.3 or force_constraint) else None
     else:
         true = {"alpha": 1.0, "beta": 0.5, "gamma": 1.5, "delta": 0.4}
         ode = common_models.Lotka_Volterra(dict(true))
@@ -110,7 +113,8 @@ def make_session(rng):
            "states": states,
            # population constraint: the named state's initial value is set to (total - the others) after every update of the
            # inferred initial conditions
-           "constraint": ((float(sum(x0)), rng.choice(["S", "R"])) if (state_target is not None and rng.random() < 0.6) else None)}
+           "constraint": ((float(sum(x0)), "S" if force_constraint else rng.choice(["S", "R"]))
+                          if (state_target is not None and (rng.random() < 0.6 or force_constraint)) else None)}
     return cfg, ode, y
 
 
@@ -180,7 +184,7 @@ def reference_cost_fn(cfg, y):
 def perform_session(seed):
     rng = random.Random(seed)
     np.random.seed(rng.randrange(1, 2 ** 31 - 1))
-    cfg, ode, y = make_session(rng)
+    cfg, ode, y = make_session(rng, force_constraint=(seed % 8 == 3))
     params, obj = build_objects(cfg, ode, y)
     # a fresh loss object on a fresh model for recomputation
     if cfg["which"] == "sircount":
